@@ -227,6 +227,12 @@ def run(ctx):
                 flush = m
     if flush is None:
         raise AnalysisError('anchor-lost role=buffer swap')
+    swap_sites = [n for m in flusher_side for n in ast.walk(m.node) if isinstance(n, ast.Assign) and any(self_attr(t) in shared for t in n.targets)
+                  and isinstance(n.value, (ast.List, ast.Call))]
+    if len(swap_sites) > 1 and len({norm(x) for x in swap_sites}) == 1:
+        # the same swap written out at several places of the thread function (the flush routine duplicated in place): the clauses below
+        # describe one flush routine; nothing is decided about copies of it
+        raise AnalysisError('the flusher thread swaps the buffer at %d places (%s): shape not modelled' % (len(swap_sites), norm(swap_sites[0])[:60]))
     swap_ok = False
     swap_partial = None
     swapped_local = None
